@@ -23,6 +23,7 @@ func init() {
 		},
 		Run: runC23,
 		Controls: []Control{
+			{Name: "openconfirm-hold-timer-ignores-hold-time-zero", File: "protocols/bgp/server/fsm_open_confirm.go", Old: "\tif s.fsm.holdTime != 0 && time.Since(s.fsm.lastUpdateOrKeepalive) > s.fsm.holdTime {", New: "\tif time.Since(s.fsm.lastUpdateOrKeepalive) > s.fsm.holdTime {", Expect: "hold-timer-runs-only-with-nonzero-hold-time"},
 			{Name: "teardown-stops-at-first-unconfigured-family", File: "protocols/bgp/server/fsm_established.go", Old: "\tif s.fsm.ipv4Unicast != nil {\n\t\ts.fsm.ipv4Unicast.dispose()\n\t}\n\n\tif s.fsm.ipv6Unicast != nil {\n\t\ts.fsm.ipv6Unicast.dispose()\n\t}\n", New: "\tfor _, f := range []*fsmAddressFamily{s.fsm.ipv4Unicast, s.fsm.ipv6Unicast} {\n\t\tif f == nil {\n\t\t\tbreak\n\t\t}\n\t\tf.dispose()\n\t}\n", Expect: "every-family-follows-the-session"},
 			{Name: "refactor-teardown-loops-over-the-families", Silent: true, File: "protocols/bgp/server/fsm_established.go", Old: "\tif s.fsm.ipv4Unicast != nil {\n\t\ts.fsm.ipv4Unicast.dispose()\n\t}\n\n\tif s.fsm.ipv6Unicast != nil {\n\t\ts.fsm.ipv6Unicast.dispose()\n\t}\n", New: "\tfor _, f := range []*fsmAddressFamily{s.fsm.ipv4Unicast, s.fsm.ipv6Unicast} {\n\t\tif f == nil {\n\t\t\tcontinue\n\t\t}\n\t\tf.dispose()\n\t}\n"},
 			{Name: "refactor-reject-returns-early-without-connection", Silent: true, File: "protocols/bgp/server/fsm_open_sent.go", Old: "\tif s.fsm.con != nil {\n\t\ts.fsm.sendNotification(packet.OpenMessageError, errorSubCode)\n\t\ts.fsm.con.Close()\n\t}\n", New: "\tif s.fsm.con == nil {\n\t\treturn newIdleState(s.fsm), reason\n\t}\n\ts.fsm.sendNotification(packet.OpenMessageError, errorSubCode)\n\ts.fsm.con.Close()\n"},
@@ -46,6 +47,7 @@ var rfcRelation = map[string][]string{
 }
 
 func runC23(c *core.Ctx) {
+	holdTimerNeedsNonZeroHoldTime(c)
 	everyFamilyHandled(c, "every-family-follows-the-session", c.MustFunc(srv+".(*establishedState).init"), c.MustFunc(srv+".(*fsmAddressFamily).init"))
 	everyFamilyHandled(c, "every-family-follows-the-session", c.MustFunc(srv+".(*establishedState).uninit"), c.MustFunc(srv+".(*fsmAddressFamily).dispose"))
 	p := c.P
